@@ -3,10 +3,13 @@ EXTENDS MxjCast, Json, SequencesExt
 VARIABLE c
 Init == c \in Catalogue
 Spec == Init /\ [][UNCHANGED c]_c
-Opts == [cast : BOOLEAN, toInt : BOOLEAN, toFloat : BOOLEAN, toBool : BOOLEAN, nanInf : BOOLEAN, skipTag : BOOLEAN]
+Opts == [cast : BOOLEAN, toInt : BOOLEAN, toFloat : BOOLEAN, toBool : BOOLEAN, nanInf : BOOLEAN, skipTag : {"0", "A", "B"}]
+\* function A skips the keys e and -a, function B the keys f and #text
+SkA(o) == o.skipTag = "A"
+SkB(o) == o.skipTag = "B"
 Bc(b) == IF b THEN "1" ELSE "0"
-Code(o) == Bc(o.cast) \o Bc(o.toInt) \o Bc(o.toFloat) \o Bc(o.toBool) \o Bc(o.nanInf) \o Bc(o.skipTag)
+Code(o) == Bc(o.cast) \o Bc(o.toInt) \o Bc(o.toFloat) \o Bc(o.toBool) \o Bc(o.nanInf) \o o.skipTag
 Thm == \A o \in Opts : NoCastWithoutFlag(c, o) /\ NeverNanInf(c, o) /\ Denotes(c, o)
 Emit == PrintT(ToJson([f |-> "cast", s |-> c.s,
-          rows |-> SetToSeq({[code |-> Code(o), e |-> CastOf(c, o, TRUE), f |-> CastOf(c, o, FALSE), a |-> CastOf(c, o, TRUE), t |-> CastOf(c, o, FALSE)] : o \in Opts})]))
+          rows |-> SetToSeq({[code |-> Code(o), e |-> CastOf(c, o, SkA(o)), f |-> CastOf(c, o, SkB(o)), a |-> CastOf(c, o, SkA(o)), t |-> CastOf(c, o, SkB(o)), plain |-> CastOf(c, o, FALSE)] : o \in Opts})]))
 =============================================================================
